@@ -97,10 +97,11 @@ Definition model_obs (su : setup) (ops : list (bool * op)) (r : bool)
    map (answer_of (su_qk su) (wcfg su r) (wreg w r)) (su_probes su)).
 
 (** short literals written by the harness *)
-Definition mkud (n : Z) (d : positive) (ref : list (string * Qc)) : udefv := UD (mkq n d) (mkuc ref).
+Definition mkud (n : Z) (d : positive) (ref : list (string * Qc)) : udefv := UD (mkq n d) ref.
 Definition mkut (l : list (string * udefv)) : utable := list_to_map l.
 Definition mkps (l : list (string * Qc)) : params := list_to_map l.
 Definition mkum (l : list (string * uc)) : gmap string uc := list_to_map l.
+Definition mkdm (l : list (string * list (string * Qc))) : gmap string (list (string * Qc)) := list_to_map l.
 Definition mkobjs (l : list (string * ctxobj)) : objs := list_to_map l.
 Definition aq (n : Z) (d : positive) : answer := AQ (mkq n d).
 Definition af (n : Z) (d : positive) (u : list (string * Qc)) : answer := AFU (mkq n d) (mkuc u).
